@@ -394,7 +394,9 @@ def fileChecks (live : List JVar) (zeros : Bool) (hex : String) : List String :=
   let lines := (splitLines bytes).map (fun l => String.ofList (l.map Char.ofNat))
   (if (zeros ∧ got == want) ∨ (!zeros ∧ isSubseq got want) then []
    else [s!"persisted-wrong-variables file has {got} expected {want}"]) ++
-  (if live.any (fun v => v.name == "vo") ∧ lines.any (fun l => l.startsWith "vo " ∧ l != "vo ") then
+  -- (only while `vo` HOLDS an object reference: after a restore_object(file, 0) it is 0 and "vo 0" is right)
+  (if live.any (fun v => v.name == "vo" && (match v.val with | .obj => true | _ => false)) ∧
+      lines.any (fun l => l.startsWith "vo " ∧ l != "vo ") then
     ["persisted-object-reference vo"] else [])
 
 /-- layout of a declared program: inherits in order (each with its subtree), then the own variables; static when
@@ -498,6 +500,8 @@ def judgeCmd (s : JState) (cmd : String) (impl : List String) : JState × List S
       match nextLine r with
       | some (fl, r2) =>
         let s2 := match toks fl with
+          | ["file", "changed"] => s1.flag [s!"save-file-changed-by-failed-save after {l}"]
+          | ["file", "unchanged"] => s1
           | ["file", hex] => if l == "so 1" then s1.flag (fileChecks s.live (z != "0") hex) else s1
           | _ => s1
         match r2 with
@@ -545,9 +549,29 @@ def judgeCmd (s : JState) (cmd : String) (impl : List String) : JState × List S
               -- live values after the restore, as far as the trace tells
               let s' := { s with live := (s.live.zip gotL).map (fun (p : JVar × V) => { p.1 with val := p.2 }) }
               -- statics are never touched by a restore
-              let stat := (s.live.zip gotL).foldl (fun (acc : List String) (p : JVar × V) =>
+              let stat0 := (s.live.zip gotL).foldl (fun (acc : List String) (p : JVar × V) =>
                 if p.1.isStatic ∧ pv false (expectOf p.1.val) != pv false p.2 then
                   acc ++ [s!"static-variable-changed-by-restore {p.1.name}"] else acc) []
+              -- restore_object(file, 1) goes through safe_restore_svalue: the variable whose line could not be restored
+              -- (named in the error message) keeps the value it had
+              let failed : Option String := (impl.takeWhile (· != "roerr")).findSome? (fun e =>
+                if e.startsWith "err restore_object(): Illegal" then
+                  match e.splitOn " while restoring " with
+                  | [_, tail] => some (String.ofList (tail.toList.reverse.dropWhile (· == '.')).reverse)
+                  | _ => none
+                else none)
+              let kept : List String :=
+                if nc != "0" ∧ l == "roerr" then
+                  match failed with
+                  | some x =>
+                    match (s.live.zip gotL).find? (fun (p : JVar × V) => p.1.name == x) with
+                    | some p =>
+                      if !p.1.isStatic ∧ pv false p.1.val != pv false p.2 ∧ pv false (expectOf p.1.val) != pv false p.2 then
+                        [s!"variable-changed-by-failed-restore {x}"] else []
+                    | none => []
+                  | none => []
+                else []
+              let stat := stat0 ++ kept
               match expectedAfterRestore s (nc != "0"), l with
               | some ex, "ro 1" =>
                 let vs0 := (ex.zip gotL).foldl (fun (acc : List String) (p : JVar × V) => acc ++ cmpRestored p.1.name p.1.val p.2) []
@@ -590,10 +614,19 @@ def judgeCmd (s : JState) (cmd : String) (impl : List String) : JState × List S
     else (s, impl)
   | _ => (s, impl)
 
+/-- "equal value" includes being FOUND: every entry of every mapping the harness prints (restored values, the
+    variables after restore_object) is looked up through its key (`m[key]`); an entry that keys() / values() / a
+    re-save list but no lookup reaches is reported by the harness as a line `lookup-miss <key> ..` -/
+def lookupLines (impl : List String) : List String :=
+  (impl.filter (fun l => l.startsWith "lookup-miss")).map
+    (fun l => s!"mapping-entry-not-found-by-its-key {(l.drop 12).toString}")
+
 def judge (cmds impl : List String) : List String :=
   let mem := memLines impl
-  let impl' := impl.filter (fun l => !(l.startsWith "sanitizer" ∨ l.startsWith "crash" ∨ l.startsWith "tree "))
+  -- (`tbl ..`: the bucket layout of an integer-key mapping, compared with the model by the correspondence, not judged)
+  let impl' := impl.filter (fun l => !(l.startsWith "sanitizer" ∨ l.startsWith "crash" ∨ l.startsWith "tree " ∨
+    l.startsWith "lookup-miss" ∨ l.startsWith "tbl "))
   let (s, _) := cmds.foldl (fun (acc : JState × List String) c => judgeCmd acc.1 c acc.2) ({}, impl')
-  mem ++ s.bad.reverse
+  mem ++ lookupLines impl ++ s.bad.reverse
 
 end NV.C16
